@@ -27,6 +27,7 @@ import (
 	"bytes"
 	"fmt"
 	"os"
+	"strconv"
 	"strings"
 	"testing"
 	"time"
@@ -113,6 +114,10 @@ type c34model struct {
 	nData    int
 	nSplit   int // DATA frames that were smaller than the bytes still to deliver (window/size bound)
 	vio      bool
+	// coverage counters
+	nInflight int // quiescent points with a frame blocked half-way to the stalled client
+	nEarlier  int // frames that reached the client later than the point at which they were written
+	nTight    int // DATA frames that used a window or the frame size limit up to the last octet
 	fcErr    string // the server answered a client frame with FLOW_CONTROL_ERROR (observation, not judged)
 	hist     []string
 	id       func() string
@@ -152,6 +157,7 @@ func (m *c34model) snap() {
 	// before this point. needsFrameFlush distinguishes it from a blocked flush.
 	if e.sc != nil && e.sc.writingFrame && e.sc.needsFrameFlush && buffered == 0 {
 		limit++
+		m.nInflight++
 	}
 	sn := c34snap{limit: limit, wu0: m.wu0, nSet: len(m.settings)}
 	for _, s := range m.streams {
@@ -278,6 +284,9 @@ func (m *c34model) observe() {
 		for m.cursor < len(m.snaps)-1 && start >= m.snaps[m.cursor].limit {
 			m.cursor++
 		}
+		if m.cursor < len(m.snaps)-1 {
+			m.nEarlier++
+		}
 		m.check(f, m.cursor)
 	}
 	if e.connClosed() {
@@ -363,6 +372,9 @@ func (m *c34model) check(f h2frame, k int) {
 		if f.Len > mfs {
 			m.violation("max-frame-size-exceeded", fmt.Sprintf("%v carries %d octets but the client's SETTINGS_MAX_FRAME_SIZE is %d", f, f.Len, mfs))
 		}
+	}
+	if f.Len > 0 && (f.Len == swin || f.Len == cwin || f.Len == mfs) {
+		m.nTight++
 	}
 	s.recvd += f.Len
 	m.recvdAll += f.Len
@@ -450,7 +462,7 @@ func c34families(r *vk.Run) []c34family {
 	return []c34family{
 		{
 			// stream windows bind: initial window 0/1/5, small increments
-			name: "win", depth: r.Pick(5, 6),
+			name: "win", depth: r.Pick(4, 6),
 			streams: c34two(false, []c34op{c34W4, c34W9, c34F, c34RET}, []c34op{c34W9, c34RET}, 2),
 			prefix: func(m *c34model, ch *vk.Chooser) {
 				w := small[ch.Choose(len(small))]
@@ -475,7 +487,7 @@ func c34families(r *vk.Run) []c34family {
 		},
 		{
 			// SETTINGS_INITIAL_WINDOW_SIZE changed mid-connection (up, down, below what is in flight)
-			name: "set", depth: r.Pick(5, 6),
+			name: "set", depth: r.Pick(5, 7),
 			streams: c34two(false, []c34op{c34W9, c34F, c34RET}, []c34op{c34W4, c34RET}, 1),
 			prefix: func(m *c34model, ch *vk.Chooser) {
 				m.sendSettings(5, -1)
@@ -498,7 +510,7 @@ func c34families(r *vk.Run) []c34family {
 		},
 		{
 			// connection window binds: one big response drains it down to 0/1/5 first
-			name: "conn", depth: r.Pick(5, 6),
+			name: "conn", depth: r.Pick(4, 6),
 			streams: func() []*c34stream {
 				return []*c34stream{
 					{idx: 0, id: 3, path: "/s3", ops: []c34op{c34W4, c34W9, c34F, c34RET}, maxWrites: 2, maxFlush: 1},
@@ -716,6 +728,9 @@ func c34exec(t *testing.T, r *vk.Run, f *c34family, ch *vk.Chooser, nth int64) {
 		}
 		r.Outcome(cls)
 		r.Add("data_frames_checked", int64(m.nData))
+		r.Add("data_frames_exactly_filling_a_limit", int64(m.nTight))
+		r.Add("frames_delivered_after_the_point_they_were_written", int64(m.nEarlier))
+		r.Add("quiescent_points_with_frame_blocked_on_stalled_client", int64(m.nInflight))
 		r.Case(ch.CaseID(f.name))
 		r.Nontrivial(f.name + " " + strings.Join(m.hist, " "))
 		if nth%4000 == 11 {
@@ -744,10 +759,18 @@ func TestVerifC34(t *testing.T) {
 	r := vk.Start(t, "C34")
 	defer r.Finish()
 	only := os.Getenv("VERIF_C34_FAM") // development aid: restrict to one family (never set by vcheck)
+	// The internal deadline is split between the families (cumulative shares), so that a slow
+	// machine cuts every family short a little instead of dropping the last ones entirely.
+	budget, _ := strconv.ParseFloat(os.Getenv("VERIF_BUDGET_S"), 64)
+	share := map[string]float64{"win": 0.30, "drip": 0.40, "set": 0.60, "rst": 0.72, "conn": 0.88, "big": 1.0}
+	start := time.Now()
 	for _, f := range c34families(r) {
 		f := f
 		if only != "" && only != f.name {
 			continue
+		}
+		if d, err := strconv.Atoi(os.Getenv("VERIF_C34_DEPTH")); err == nil && d > 0 { // development aid
+			f.depth = d
 		}
 		complete := true
 		var nth int64
@@ -756,6 +779,11 @@ func TestVerifC34(t *testing.T) {
 			c34exec(t, r, &f, ch, nth)
 		}, func() bool {
 			if r.Expired("c34 " + f.name) {
+				complete = false
+				return true
+			}
+			if budget > 0 && time.Since(start).Seconds() > budget*share[f.name] {
+				r.Cap("deadline-share:c34 " + f.name)
 				complete = false
 				return true
 			}
